@@ -199,10 +199,18 @@ def run_pipeline(spec, keep=False):
     # where the caller asks for the output: any file name (suffix or not, several dots, upper case,
     # sub-directory), given absolute or relative to the working directory
     out_name = spec.get("out_name") or "out.itp"
-    out = pathlib.Path(tmp) / "work" / out_name
+    # the output directory: below the temporary directory, or (out_fs == "other") on ANOTHER file system than
+    # tempfile.gettempdir() — vermouth's deferred writer moves a temporary file to the destination
+    out_base = tmp
+    if spec.get("out_fs") == "other":
+        other = other_filesystem()
+        if other is not None:
+            out_base = tempfile.mkdtemp(prefix="c11_out_", dir=other)
+    result["out_fs"] = "other" if out_base != tmp else "same"
+    out = pathlib.Path(out_base) / "work" / out_name
     out.parent.mkdir(parents=True, exist_ok=True)
     out_arg = pathlib.Path(out_name) if spec.get("out_rel") else out
-    before = set(_listing(tmp))
+    before = set(_listing(tmp)) | set(_listing(out_base))
     old_cwd = os.getcwd()
     inpath = []
     for fname, text in sorted((spec.get("files") or {}).items()):
@@ -261,7 +269,7 @@ def run_pipeline(spec, keep=False):
         gen_itp.find_missing_edges = missing_wrapper
         sys.argv = list(spec.get("argv") or ["polyply", "gen_params"])
         try:
-            os.chdir(str(pathlib.Path(tmp) / "work"))
+            os.chdir(str(pathlib.Path(out_base) / "work"))
             gen_itp.gen_params(name=name, outpath=out_arg, inpath=inpath, lib=spec.get("lib"),
                                seq=spec.get("seq"), seq_file=seq_file,
                                dsdna=bool(spec.get("dsdna")), mods=[], protter=False)
@@ -281,7 +289,7 @@ def run_pipeline(spec, keep=False):
     # the file must be at exactly the requested path
     result["written"] = out.is_file()
     result["requested_path"] = str(out_arg)
-    result["new_files"] = sorted(set(_listing(tmp)) - before)
+    result["new_files"] = sorted((set(_listing(tmp)) | set(_listing(out_base))) - before)
     result["tmp"] = tmp
     if result["written"]:
         text = out.read_text()
@@ -307,8 +315,8 @@ def run_pipeline(spec, keep=False):
                 os.chdir(str(out.parent))
                 top_arg = "verif_system.top"
             elif read_mode == "relative-dir":
-                os.chdir(tmp)
-                top_arg = os.path.relpath(str(top_path), tmp)
+                os.chdir(out_base)
+                top_arg = os.path.relpath(str(top_path), out_base)
             top = Topology.from_gmx_topfile(top_arg, "verif")
             meta = top.molecules[0]
             result["top"] = dict(ok=True, block=block_to_json(meta.molecule), graph=res_graph_to_json(meta),
@@ -342,7 +350,24 @@ def run_pipeline(spec, keep=False):
     if not keep:
         import shutil
         shutil.rmtree(tmp, ignore_errors=True)
+        if out_base != tmp:
+            shutil.rmtree(out_base, ignore_errors=True)
     return result
+
+
+def other_filesystem():
+    """a writable directory on another file system than the default temporary directory, if the machine has one"""
+    try:
+        here = os.stat(tempfile.gettempdir()).st_dev
+    except OSError:
+        return None
+    for cand in ("/dev/shm", os.path.expanduser("~"), "/var/tmp", "/verif/evidence_scratch"):
+        try:
+            if os.path.isdir(cand) and os.access(cand, os.W_OK) and os.stat(cand).st_dev != here:
+                return cand
+        except OSError:
+            continue
+    return None
 
 
 # ------------------------------------------------------------------------------------------------ libraries
